@@ -545,7 +545,7 @@ class ExecMixin(object):
     ghost_sorts = {}
 
     def resolve_locs(self, specs, st, ctx):
-        sctx = self.spec_ctx(ctx, bound=ctx.bound)
+        sctx = self.spec_ctx(ctx, bound=ctx.bound, result=getattr(ctx, 'result', None))
         locs = []
         for spec in specs:
             spec = spec.strip()
@@ -1003,6 +1003,9 @@ class ExecMixin(object):
         r = self.new_ref(st)
         st.hset(('type',), z3.Store(st.hget(('type',)), r, I(self.class_id(cls))))
         obj = SV(Ref(cls), r)
+        # ghost counters of a new object start at their declared initial value (definitional: they count events since creation)
+        for gname, gval in self.classes.get(cls, {}).get('ghost_init', {}).items():
+            self.set_ghost(st, gname, self.ghost_sorts[gname], r, I(gval))
         dcls, fi = self.find_method(cls, '__init__')
         if fi is None:
             yield st, obj
@@ -1127,9 +1130,6 @@ class ExecMixin(object):
             st.alloc = na
             st.nalloc = 0
         self.apply_havoc(st, locs, 'chv')
-        if getattr(c, 'allocates', None):
-            # fields of objects the callee allocated: named through the (already havocked) post state
-            self.apply_havoc(st, self.resolve_locs(c.allocates, st, callee_ctx), 'chv')
         res = None
         if c.returns is not None and c.returns != NONE:
             rz = fresh('ret!' + c.target.rsplit('.', 1)[-1], sort_of(c.returns))
@@ -1143,6 +1143,26 @@ class ExecMixin(object):
             if isinstance(res.ty, Ref):
                 self.type_fact(st, res)
         callee_ctx.result = res
+        if getattr(c, 'allocates', None):
+            # fields of objects the callee allocated: named through the (already havocked) post state and the result
+            alloc_specs = list(c.allocates)
+            if res is not None and is_reflike(res.ty) and any('result' in a for a in alloc_specs):
+                # the specs speak about `result`: they apply when an object is returned
+                nn = st.fork()
+                nn.assume(res.z != 0)
+                if self.feasible(nn):
+                    hv = st.fork()
+                    hv.assume(res.z != 0)
+                    for spec1 in alloc_specs:
+                        # one at a time, in order: a later spec may go through a field an earlier one has just havocked
+                        self.apply_havoc(hv, self.resolve_locs([spec1], hv, callee_ctx), 'chv')
+                    # havoc only when the result is an object: merge the havocked heap under that condition
+                    for key in set(hv.heap) | set(st.heap):
+                        a1, a0 = hv.hget(key), st.hget(key)
+                        if not a1.eq(a0):
+                            st.hset(key, z3.If(res.z != 0, a1, a0))
+            else:
+                self.apply_havoc(st, self.resolve_locs(alloc_specs, st, callee_ctx), 'chv')
         probe_state = st.fork()
         for ens in c.ensures:
             st.assume(self.spec_bool(ens, st, callee_ctx))
